@@ -45,7 +45,7 @@ def parsePolicy (s : String) : Option (List WPol) :=
   if s == "-" then some [] else (s.splitOn ",").mapM parsePolEntry
 
 def woutStr : WOut → String
-  | .ok => "ok" | .timeout => "timeout" | .hard => "hard" | .closed => "closed"
+  | .ok => "ok" | .timeout => "timeout" | .hard => "hard" | .closed => "closed" | .gate => "gate"
 
 def pureStep (f : List String) : String :=
   match f with
